@@ -111,6 +111,25 @@ def opt_min(a, b):
     return ite(is_none(a), b, ite(is_none(b), a, ite(some(a) <= some(b), a, b)))
 
 
+# ---------------------------------------------------------------- C11: retrieval
+
+@spec
+def ep_ts(e):
+    """the timestamp string the index parses for an episode: e.get("ts") or "" """
+    return ite("ts" in e and len(e["ts"]) > 0, e["ts"], "")
+
+
+@spec
+def hint_thr(h):
+    """similarity threshold read from the search hints: missing or None means 0.0"""
+    t = h.get("sim_threshold", 0.0)
+    return ite(is_none(t), 0.0, some(t))
+
+
+@spec
+def fused_of(f, it):
+    """f is the candidate dict `it` with an added score_fused (all original keys carried over unchanged)"""
+    return f["id"] == it["id"] and f.get("score") == it.get("score") and f.get("text") == it.get("text")
 # ---------------------------------------------------------------- C08: abstract file system (ghost `fs`)
 
 @spec
@@ -168,6 +187,14 @@ def hit_id(h):
 @spec
 def hit_key(h):
     return (0 - qscore_of(hit_score(h)), hit_id(h))
+
+
+# ---------------------------------------------------------------- C12: propagation
+
+@spec
+def node_tags(n):
+    """the tag list the seeder reads from a node: n.attrs.get("tags", [])"""
+    return n.attrs.get("tags", [])
 # ---------------------------------------------------------------- C16 / C10: log normalisation, staging, writers
 
 @spec
